@@ -592,8 +592,22 @@ func dischargePanic(c *Ctx, fk string, fn *ssa.Function, p *ssa.Panic) (bool, st
 		for _, g := range guardsOf(p.Block()) {
 			if bin, ok := g.Cond.(*ssa.BinOp); ok && bin.Op == token.NEQ && g.Truth {
 				if ex, ok := bin.X.(*ssa.Extract); ok {
-					if call, ok := ex.Tuple.(*ssa.Call); ok && calleeFullName(call) == "encoding/json.Marshal" {
-						return true, "guarded by the json.Marshal error only; see HASH-SHAPE and YEAR-RANGE"
+					if call, ok := ex.Tuple.(*ssa.Call); ok {
+						if calleeFullName(call) == "encoding/json.Marshal" {
+							return true, "guarded by the json.Marshal error only; see HASH-SHAPE and YEAR-RANGE"
+						}
+						// a module helper whose only error sources are json calls
+						if f := call.Call.StaticCallee(); f != nil && c.InModule(f) {
+							onlyJSON := true
+							for _, ci := range callsIn(f) {
+								if errResultIndex(ci.Common().Signature()) >= 0 && !strings.HasPrefix(calleeFullName(ci), "encoding/json.") {
+									onlyJSON = false
+								}
+							}
+							if onlyJSON {
+								return true, "guarded by the error of " + c.FuncKey(f) + ", which fails only when encoding/json does; see HASH-SHAPE and YEAR-RANGE"
+							}
+						}
 					}
 				}
 			}
